@@ -208,6 +208,15 @@ def L.ret (l : L) (v : Nat) : L :=
   { l with pc := .idle, serial := l.serial + 1,
            done := l.done ++ [⟨l.cur, v, l.loaded, l.timedOut, l.isTimeout⟩] }
 
+/-- entry into the next operation: parameters are bound, C locals get their initialisers -/
+def L.start (l : L) (op : Op) (rest : List Op) : L :=
+  let l := { l with prog := rest, cur := op, slot := none, isTimeout := false, timedOut := false,
+                    cursor := [], notified := 0, loaded := 0 }
+  match op with
+  | .wait w64 a e t => { l with pc := .wLock, w64 := w64, addr := a, expect := e, timeout := t }
+  | .notify a n => { l with pc := .nShared, addr := a, count := n }
+  | .store a w v => { l with pc := .sPoint, addr := a, width := w, expect := v }
+
 @[inline] def run1 (g : G) (l : L) : List (Label × G × L) := [(.run, g, l)]
 @[inline] def crash (g : G) (l : L) (c : Crash) : List (Label × G × L) := [(.run, g, { l with pc := .crashed c })]
 
@@ -217,13 +226,7 @@ def stepL (B : Nat) (g : G) (l : L) : List (Label × G × L) :=
   | .idle =>
     match l.prog with
     | [] => []
-    | op :: rest =>
-      let l := { l with prog := rest, cur := op, slot := none, isTimeout := false, timedOut := false,
-                        cursor := [], notified := 0, loaded := 0 }
-      match op with
-      | .wait w64 a e t => run1 g { l with pc := .wLock, w64 := w64, addr := a, expect := e, timeout := t }
-      | .notify a n => run1 g { l with pc := .nShared, addr := a, count := n }
-      | .store a w v => run1 g { l with pc := .sPoint, addr := a, width := w, expect := v }
+    | op :: rest => run1 g (l.start op rest)
   -- ---------------------------------------------------------------- wait
   | .wLock =>
     match g.mutex.lock? l.tid with
